@@ -38,6 +38,13 @@ CLAIMS = {
  "C12": dict(category="other", technique="Lean 4 theorems (linear-scan swap variants = relabel everything; disabled caches untouched) + paired run against an all-enabled twin mesh",
    text="Lean theorems: with the guiding incidence kind disabled each swap relabels every definition (equals the relabeling specification), never touches the disabled cache, disabling clears exactly that cache. Every generated history is executed on two meshes, one with a random incidence schedule and one with everything enabled; definitions, flags, counters, properties and (when enabled) caches must agree after every step; every step runs under ASan/UBSan with bounds-checked vectors.",
    note="as C01"),
+
+ "C13": dict(category="other", technique="Lean 4 proof (world model: Disjoint invariant, copy/assign specs, frame theorems by induction over op sequences) + per-step correspondence of registry/handle views judged in Lean",
+   text="Lean theorems over a world of meshes, a storage heap and user handles: every reachable world keeps storage ids of distinct meshes disjoint; copy/assign (incl. cross-kind, self) clone exactly the persistent properties into fresh storages with equal values, leave old handles attached-but-anonymous and resized; any operation on mesh A leaves the view of every other mesh and foreign handle unchanged, for every history. Topology itself is an opaque digest in this model (its equality after copy is checked by the correspondence run only), so the property is claimed as partial. 300 traces x ~60 ops per quick run with 1-4 meshes, all value types, copies, assignments, destruction with outstanding handles, under ASan.",
+   note="entities/definitions/modes being equal after copy is tied by the differential run, not proved; model hand-written"),
+ "C14": dict(category="proof", technique="Lean 4 proof (registry state machine + Tracker/Tracked pointer protocol: 16-clause invariant by induction over all op sequences) + per-step correspondence judged in Lean",
+   text="Lean theorems, unbounded induction over every sequence of request/create_*/get/exists/set_shared/set_persistent/set_name/handle copy-move-drop/clear_*/clear/mesh copy/destruction: persistent => shared => named and unique; a storage exists iff referenced or persistent; n_props/n_persistent_props reflect the registry; request returns the existing shared storage or creates; create_* refuses duplicates; private never found; throwing transitions change nothing; handles outliving their mesh keep data and report detached; the tracker pointer protocol never dereferences a dead object. The model mirrors ResourceManager*/Tracking.hh after four fix commits and is compared step by step (result, exception class, full registry and handle views) with the ASan build; thorough tier enumerates all op sequences of length <= 4 over a 35-op alphabet.",
+   note="model hand-written, tied by the correspondence run; std::set iteration order is abstracted (views compared as sets)"),
  "C17": dict(category="other", technique="Lean 4 theorems (relabeling involutions, slot-exchange involution, swap twice = identity for the scan variants) + exact-state correspondence and relabeling oracle on every swap",
    text="Lean theorems: swapping a handle with itself is a no-op; the relabel maps and the (paired) slot exchanges are involutions commuting with opposite; for the linear-scan variants swap twice is the identity on the whole record. On every generated swap (all four kinds, deleted handles, all incidence subsets) the implementation's state must equal the Lean model exactly (including cache order), the token-named mesh must be unchanged, and exactly the two handles' tokens and flags exchanged.",
    note="as C01; cache-guided variants = relabeling under CacheInv is not yet a theorem"),
